@@ -39,10 +39,13 @@ def hash_array(array: np.ndarray) -> int:
         # between different views of same array
         h.update(bytes(f"{array.dtype}{array.shape}{array.strides}", "utf-8"))
         return h.intdigest()
-    # Evaluate built-in hash function on *copy* of data as a byte sequence. Adding zero
-    # maps any negative zeros to positive zeros so that arrays which compare equal
-    # (-0.0 == 0.0) also hash equal
-    return hash((array + 0).tobytes())
+    # Evaluate built-in hash function on *copy* of data as a byte sequence. Real valued
+    # arrays are first converted to double precision and zero added so that arrays which
+    # compare equal - the same numbers stored as integers and as floats, negative and
+    # positive zeros - also hash equal
+    if array.dtype.kind in "biuf":
+        array = array.astype(np.float64) + 0
+    return hash(array.tobytes())
 
 
 LOG_2: float = log(2.0)
